@@ -1,35 +1,409 @@
 //! CIE family edges: Xyz, Yxy, Lab, Lch, Luv, Lchuv, Hsluv, Lms.
+//! Correspondence lines for the Lean model + the property's own predicate (published definition, edge-pair round trips)
+//! evaluated on the implementation.
 use crate::common::*;
 use crate::conv_common::*;
-use palette::white_point::{D50, D65};
-use palette::{Xyz, Yxy};
+use palette::lms::matrix::{Bradford, UnitMatrix, VonKries};
+use palette::lms::Lms;
+use palette::white_point::{Any, A, D50, D65, E};
+use palette::{Hsluv, Lab, Lch, Lchuv, Luv, Xyz, Yxy};
 
-/// independent f64 references written from CIE 15 (not from palette)
+/// Independent f64 references written from the publications (CIE 15:2004 §7.3, §8.2.1 L*a*b*, §8.2.2 L*u*v*, polar forms;
+/// HSLuv rev4 reference implementation `hsluv.js`/`hsluv-python`; Bradford / Hunt-Pointer-Estevez cone matrices from
+/// Lam 1985 / Hunt 1995 as tabulated by Lindbloom) — not from palette.
 pub mod spec {
+    use std::f64::consts::PI;
+    /// CIE standard illuminant tristimulus values, 2° observer, Y = 1 (ASTM E308-01)
+    pub fn white(name: &str) -> [f64; 3] {
+        match name {
+            "D65" => [0.95047, 1.0, 1.08883],
+            "D50" => [0.96422, 1.0, 0.82521],
+            "E" => [1.0, 1.0, 1.0],
+            "A" => [1.09850, 1.0, 0.35585],
+            _ => panic!("white point {} not in the reference", name),
+        }
+    }
     pub fn xyz_to_yxy(c: [f64; 3]) -> [f64; 3] { let s = c[0] + c[1] + c[2]; if s == 0.0 { [0.0, 0.0, c[1]] } else { [c[0] / s, c[1] / s, c[1]] } }
     pub fn yxy_to_xyz(c: [f64; 3]) -> [f64; 3] { let (x, y, l) = (c[0], c[1], c[2]); if y == 0.0 { [0.0, l, 0.0] } else { [x * l / y, l, (1.0 - x - y) * l / y] } }
+
+    // --- CIE 1976 L*a*b* (CIE 15:2004 eq. 8.3-8.11)
+    pub fn lab_f(t: f64) -> f64 { let d: f64 = 6.0 / 29.0; if t > d * d * d { t.cbrt() } else { t / (3.0 * d * d) + 4.0 / 29.0 } }
+    pub fn lab_finv(t: f64) -> f64 { let d: f64 = 6.0 / 29.0; if t > d { t * t * t } else { 3.0 * d * d * (t - 4.0 / 29.0) } }
+    pub fn xyz_to_lab(w: [f64; 3], c: [f64; 3]) -> [f64; 3] {
+        let (fx, fy, fz) = (lab_f(c[0] / w[0]), lab_f(c[1] / w[1]), lab_f(c[2] / w[2]));
+        [116.0 * fy - 16.0, 500.0 * (fx - fy), 200.0 * (fy - fz)]
+    }
+    pub fn lab_to_xyz(w: [f64; 3], c: [f64; 3]) -> [f64; 3] {
+        let fy = (c[0] + 16.0) / 116.0; let fx = fy + c[1] / 500.0; let fz = fy - c[2] / 200.0;
+        [w[0] * lab_finv(fx), w[1] * lab_finv(fy), w[2] * lab_finv(fz)]
+    }
+    // --- polar forms: C = sqrt(a^2+b^2), h = atan2(b, a) in degrees in [0, 360)
+    pub fn to_polar(c: [f64; 3]) -> [f64; 3] { let h = c[2].atan2(c[1]).to_degrees(); [c[0], c[1].hypot(c[2]), if h < 0.0 { h + 360.0 } else { h }] }
+    pub fn from_polar(c: [f64; 3]) -> [f64; 3] { let h = c[2] / 180.0 * PI; [c[0], c[1] * h.cos(), c[1] * h.sin()] }
+    // --- CIE 1976 L*u*v* (CIE 15:2004 eq. 8.26-8.30), u' = 4X/(X+15Y+3Z), v' = 9Y/(X+15Y+3Z)
+    pub fn upvp(c: [f64; 3]) -> (f64, f64) { let d = c[0] + 15.0 * c[1] + 3.0 * c[2]; (4.0 * c[0] / d, 9.0 * c[1] / d) }
+    pub fn xyz_to_luv(w: [f64; 3], c: [f64; 3]) -> [f64; 3] {
+        let d = c[0] + 15.0 * c[1] + 3.0 * c[2];
+        if d == 0.0 { return [0.0, 0.0, 0.0]; } // black: chromaticity undefined, L* = 0 makes u* = v* = 0
+        let yr = c[1] / w[1]; let e: f64 = (6.0f64 / 29.0).powi(3);
+        let l = if yr > e { 116.0 * yr.cbrt() - 16.0 } else { (29.0f64 / 3.0).powi(3) * yr };
+        let (u, v) = upvp(c); let (un, vn) = upvp(w);
+        [l, 13.0 * l * (u - un), 13.0 * l * (v - vn)]
+    }
+    pub fn luv_to_xyz(w: [f64; 3], c: [f64; 3]) -> [f64; 3] {
+        let l = c[0];
+        if l == 0.0 { return [0.0, 0.0, 0.0]; }
+        let y = w[1] * if l > 8.0 { ((l + 16.0) / 116.0).powi(3) } else { l * (3.0f64 / 29.0).powi(3) };
+        let (un, vn) = upvp(w);
+        let (u, v) = (c[1] / (13.0 * l) + un, c[2] / (13.0 * l) + vn);
+        [y * 9.0 * u / (4.0 * v), y, y * (12.0 - 3.0 * u - 20.0 * v) / (4.0 * v)]
+    }
+    // --- HSLuv rev4 reference
+    const M: [[f64; 3]; 3] = [[3.240969941904521, -1.537383177570093, -0.498610760293], [-0.96924363628087, 1.87596750150772, 0.041555057407175], [0.055630079696993, -0.20397695888897, 1.056971514242878]];
+    const KAPPA: f64 = 903.2962962;
+    const EPSILON: f64 = 0.0088564516;
+    pub fn get_bounds(l: f64) -> Vec<(f64, f64)> {
+        let sub1 = (l + 16.0).powi(3) / 1560896.0;
+        let sub2 = if sub1 > EPSILON { sub1 } else { l / KAPPA };
+        let mut r = vec![];
+        for c in 0..3 { let (m1, m2, m3) = (M[c][0], M[c][1], M[c][2]);
+            for t in 0..2 { let t = t as f64;
+                let top1 = (284517.0 * m1 - 94839.0 * m3) * sub2;
+                let top2 = (838422.0 * m3 + 769860.0 * m2 + 731718.0 * m1) * l * sub2 - 769860.0 * t * l;
+                let bottom = (632260.0 * m3 - 126452.0 * m2) * sub2 + 126452.0 * t;
+                r.push((top1 / bottom, top2 / bottom)); } }
+        r
+    }
+    pub fn max_chroma_for_lh(l: f64, h: f64) -> f64 {
+        let hrad = h / 360.0 * PI * 2.0;
+        let mut min = f64::MAX;
+        for (slope, intercept) in get_bounds(l) { let len = intercept / (hrad.sin() - slope * hrad.cos()); if len >= 0.0 { min = min.min(len); } }
+        min
+    }
+    /// `lchToHsluv`: (l, c, h) -> (h, s, l)
+    pub fn lch_to_hsluv(c: [f64; 3]) -> [f64; 3] {
+        let (l, ch, h) = (c[0], c[1], c[2]);
+        if l > 99.9999999 { return [h, 0.0, 100.0]; }
+        if l < 0.00000001 { return [h, 0.0, 0.0]; }
+        [h, ch / max_chroma_for_lh(l, h) * 100.0, l]
+    }
+    /// `hsluvToLch`: (h, s, l) -> (l, c, h)
+    pub fn hsluv_to_lch(c: [f64; 3]) -> [f64; 3] {
+        let (h, s, l) = (c[0], c[1], c[2]);
+        if l > 99.9999999 { return [100.0, 0.0, h]; }
+        if l < 0.00000001 { return [0.0, 0.0, h]; }
+        [l, max_chroma_for_lh(l, h) / 100.0 * s, h]
+    }
+    // --- cone response matrices
+    pub fn cone(name: &str) -> [[f64; 3]; 3] {
+        match name {
+            "Bradford" => [[0.8951, 0.2664, -0.1614], [-0.7502, 1.7135, 0.0367], [0.0389, -0.0685, 1.0296]],
+            "VonKries" => [[0.40024, 0.7076, -0.08081], [-0.2263, 1.16532, 0.0457], [0.0, 0.0, 0.91822]],
+            "UnitMatrix" => [[1.0, 0.0, 0.0], [0.0, 1.0, 0.0], [0.0, 0.0, 1.0]],
+            _ => panic!("cone matrix {}", name),
+        }
+    }
+    pub fn mul(m: [[f64; 3]; 3], c: [f64; 3]) -> [f64; 3] { [m[0][0] * c[0] + m[0][1] * c[1] + m[0][2] * c[2], m[1][0] * c[0] + m[1][1] * c[1] + m[1][2] * c[2], m[2][0] * c[0] + m[2][1] * c[1] + m[2][2] * c[2]] }
+    /// exact inverse by cofactors (the published inverse tables are 7-digit roundings of this)
+    pub fn inv(m: [[f64; 3]; 3]) -> [[f64; 3]; 3] {
+        let c = |i: usize, j: usize| { let (a, b, p, q) = ((i + 1) % 3, (i + 2) % 3, (j + 1) % 3, (j + 2) % 3); m[a][p] * m[b][q] - m[a][q] * m[b][p] };
+        let det = m[0][0] * c(0, 0) + m[0][1] * c(0, 1) + m[0][2] * c(0, 2);
+        let mut r = [[0.0; 3]; 3];
+        for i in 0..3 { for j in 0..3 { r[j][i] = c(i, j) / det; } }
+        r
+    }
 }
 
-macro_rules! for_wp { ($m:ident, $t:ty, $($args:tt)*) => { $m!(D65, "D65", $t, $($args)*); $m!(D50, "D50", $t, $($args)*); } }
+/// ± {0,1,2,16} ulps in T around `x`
+fn ulps_around<T: Fl>(x: f64) -> Vec<f64> { let t = T::of(x); [0i64, 1, -1, 2, -2, 16, -16].iter().map(|k| t.nudge(*k).to64()).collect() }
 
-fn run_t<T: Fl>(out: &mut Out, rng: &mut Rng, n: usize)
-where Yxy<D65, T>: palette::convert::FromColorUnclamped<Xyz<D65, T>> + palette::cast::ArrayCast<Array = [T; 3]>, Xyz<D65, T>: palette::convert::FromColorUnclamped<Yxy<D65, T>> + palette::cast::ArrayCast<Array = [T; 3]>,
-      Yxy<D50, T>: palette::convert::FromColorUnclamped<Xyz<D50, T>> + palette::cast::ArrayCast<Array = [T; 3]>, Xyz<D50, T>: palette::convert::FromColorUnclamped<Yxy<D50, T>> + palette::cast::ArrayCast<Array = [T; 3]> {
-    let tol = 64.0 * T::eps();
-    macro_rules! xyz_yxy { ($wp:ty, $wpn:expr, $t:ty) => {{
-        let xs = box_inputs(nominal_box("Xyz"), rng, n, false);
-        let r = edge::<Xyz<$wp, T>, Yxy<$wp, T>, T, 3, 3>(out, &format!("Xyz:{}", $wpn), &format!("Yxy:{}", $wpn), &xs);
-        for (a, d) in &r { let want = spec::xyz_to_yxy(to64(a)); out.check(close3(&to64(d), &want, tol, &[1.0, 1.0, 1.0]), &format!("def:Xyz->Yxy:{}", T::TAG), || format!("{:?} -> {:?}, CIE 15 gives {:?}", a, d, want)); }
-        let ys = box_inputs(nominal_box("Yxy"), rng, n, false);
-        let r = edge::<Yxy<$wp, T>, Xyz<$wp, T>, T, 3, 3>(out, &format!("Yxy:{}", $wpn), &format!("Xyz:{}", $wpn), &ys);
-        for (a, d) in &r { let a64 = to64(a); if a64[1] != 0.0 && a64[1].abs() < 1e-6 { continue; } // x/y with a tiny y amplifies without bound: outside "small numerical tolerance"
-            let want = spec::yxy_to_xyz(a64); out.check(close3(&to64(d), &want, tol, &[1.0, 1.0, 1.0]), &format!("def:Yxy->Xyz:{}", T::TAG), || format!("{:?} -> {:?}, CIE 15 gives {:?}", a, d, want)); }
-    }} }
-    xyz_yxy!(D65, "D65", T); xyz_yxy!(D50, "D50", T);
+/// cartesian points that sit on hue sector edges (k·60°, ±180°, 360° ≡ 0°) and exact zero chroma, incl. signed zeros
+fn polar_edge_cartesians(l: f64, r: f64) -> Vec<[f64; 3]> {
+    let mut v = vec![[l, 0.0, 0.0], [l, -0.0, 0.0], [l, 0.0, -0.0], [l, -0.0, -0.0], [l, r, 0.0], [l, r, -0.0], [l, -r, 0.0], [l, -r, -0.0], [l, 0.0, r], [l, 0.0, -r], [l, -0.0, r], [l, -0.0, -r]];
+    for k in 0..12 { let h = (k as f64 * 30.0).to_radians(); v.push([l, r * h.cos(), r * h.sin()]); }
+    for s in [1e-30, 1e-9, 1e-4] { v.push([l, r, s]); v.push([l, r, -s]); v.push([l, -r, s]); v.push([l, -r, -s]); }
+    v
 }
+fn hue_edges<T: Fl>() -> Vec<f64> {
+    let mut v = vec![];
+    for k in -6..=12 { v.extend(ulps_around::<T>(k as f64 * 60.0)); }
+    v.extend([90.0, 270.0, -90.0, 720.0, 1e-9, -1e-9, 45.0]);
+    v
+}
+
+
+/// C07 on the family's edges: finite in-range input -> finite output (`skip` = inputs already reported under a named finding clause)
+fn finite_check<T: Fl>(out: &mut Out, name: &str, r: &[([T; 3], [T; 3])], skip: impl Fn(&[f64; 3]) -> bool) {
+    for (a, d) in r {
+        let a64 = to64(a);
+        if skip(&a64) { continue; }
+        out.check(d.iter().all(|x| x.finite()), &format!("finite:{}:{}", name, T::TAG), || format!("{:?} -> {:?}", a, d));
+    }
+}
+
+macro_rules! fam {
+    ($fname:ident, $t:ty) => {
+        fn $fname(out: &mut Out, rng: &mut Rng, n: usize) {
+            type T = $t;
+            let eps = <T as Fl>::eps();
+            let tag = <T as Fl>::TAG;
+            // rounding of a formula of ~10-20 operations in T: 64 eps of the natural scale of the component
+            let tol = 64.0 * eps;
+
+            macro_rules! xyz_yxy { ($wp:ty, $wpn:expr) => {{
+                let xs = box_inputs(nominal_box("Xyz"), rng, n, false);
+                let r = edge::<Xyz<$wp, T>, Yxy<$wp, T>, T, 3, 3>(out, &format!("Xyz:{}", $wpn), &format!("Yxy:{}", $wpn), &xs);
+                finite_check::<T>(out, "Xyz->Yxy", &r, |_| false);
+                for (a, d) in &r { let want = spec::xyz_to_yxy(to64(a)); out.check(close3(&to64(d), &want, tol, &[1.0, 1.0, 1.0]), &format!("def:Xyz->Yxy:{}", tag), || format!("{:?} -> {:?}, CIE 15 gives {:?}", a, d, want)); }
+                let ys = box_inputs(nominal_box("Yxy"), rng, n, false);
+                let r = edge::<Yxy<$wp, T>, Xyz<$wp, T>, T, 3, 3>(out, &format!("Yxy:{}", $wpn), &format!("Xyz:{}", $wpn), &ys);
+                finite_check::<T>(out, "Yxy->Xyz", &r, |_| false);
+                for (a, d) in &r { let a64 = to64(a); if a64[1] != 0.0 && a64[1].abs() < 1e-6 { out.count("cls:yxy-tiny-y-not-judged"); continue; } // x/y with a tiny y amplifies without bound: outside "small numerical tolerance"
+                    let want = spec::yxy_to_xyz(a64); out.check(close3(&to64(d), &want, tol, &[1.0, 1.0, 1.0]), &format!("def:Yxy->Xyz:{}", tag), || format!("{:?} -> {:?}, CIE 15 gives {:?}", a, d, want)); }
+            }} }
+
+            // ---------------- Xyz <-> Lab
+            macro_rules! xyz_lab { ($wp:ty, $wpn:expr) => {{
+                let w = spec::white($wpn);
+                let (sn, dn) = (format!("Xyz:{}", $wpn), format!("Lab:{}", $wpn));
+                let mut xs = box_inputs(nominal_box("Xyz"), rng, n, false);
+                // threshold t = (6/29)^3 of each channel ± ulps, grays k·white, white itself
+                let e = (6.0f64 / 29.0).powi(3);
+                for i in 0..3 { for x in ulps_around::<T>(e * w[i]) { let mut c = [0.3 * w[0], 0.3 * w[1], 0.3 * w[2]]; c[i] = x; xs.push(c); out.count("cls:lab-threshold"); } }
+                for x in ulps_around::<T>(e) { xs.push([x * w[0], x * w[1], x * w[2]]); }
+                for k in 0..=32 { let g = k as f64 / 32.0; xs.push([g * w[0], g * w[1], g * w[2]]); out.count("cls:gray"); }
+                let r = edge::<Xyz<$wp, T>, Lab<$wp, T>, T, 3, 3>(out, &sn, &dn, &xs);
+                finite_check::<T>(out, "Xyz->Lab", &r, |_| false);
+                for (a, d) in &r {
+                    let want = spec::xyz_to_lab(w, to64(a));
+                    // L* = 116 f − 16, a* = 500 (fx − fy), b* = 200 (fy − fz): absolute rounding ∝ 116 / 500 / 200 (f ≤ ~1.03)
+                    out.check(close3(&to64(d), &want, tol, &[116.0, 500.0, 200.0]), &format!("def:Xyz->Lab:{}", tag), || format!("{} {:?} -> {:?}, CIE 15 gives {:?}", $wpn, a, d, want));
+                    // round trip Xyz -> Lab -> Xyz on the nominal box: cubing multiplies the relative error of f by 3
+                    let back: [T; 3] = palette::cast::into_array(Xyz::<$wp, T>::from_color_unclamped(palette::cast::from_array::<Lab<$wp, T>>(*d)));
+                    let ok = close3(&to64(&back), &to64(a), 16.0 * tol, &[1.0, 1.0, 1.0]);
+                    out.maxi(&format!("rt:Xyz-Lab-Xyz:{}", tag), (0..3).map(|i| (back[i].to64() - a[i].to64()).abs()).fold(0.0, f64::max));
+                    out.check(ok, &format!("rt:Xyz->Lab->Xyz:{}", tag), || format!("{} {:?} -> {:?} -> {:?}", $wpn, a, d, back));
+                }
+                let mut ls = box_inputs(nominal_box("Lab"), rng, n, false);
+                // thresholds of the inverse: fy = 6/29 at L = 8; fx = 6/29 resp. fz = 6/29 for given L
+                for l in ulps_around::<T>(8.0) { ls.push([l, 0.0, 0.0]); ls.push([l, 20.0, -30.0]); out.count("cls:lab-threshold"); }
+                for l0 in [0.0, 8.0, 30.0, 50.0, 100.0] { let fy = (l0 + 16.0) / 116.0;
+                    for a_ in ulps_around::<T>((6.0 / 29.0 - fy) * 500.0) { ls.push([l0, a_, 0.0]); }
+                    for b_ in ulps_around::<T>((fy - 6.0 / 29.0) * 200.0) { ls.push([l0, 0.0, b_]); } }
+                for k in 0..=32 { ls.push([100.0 * k as f64 / 32.0, 0.0, 0.0]); out.count("cls:gray"); }
+                let r = edge::<Lab<$wp, T>, Xyz<$wp, T>, T, 3, 3>(out, &dn, &sn, &ls);
+                finite_check::<T>(out, "Lab->Xyz", &r, |_| false);
+                for (a, d) in &r {
+                    let a64 = to64(a); let want = spec::lab_to_xyz(w, a64);
+                    // f up to (100+16)/116 + 128/500 = 1.26 -> f^3 up to 2, d(f^3) = 3 f^2 df
+                    out.check(close3(&to64(d), &want, 8.0 * tol, &[1.0, 1.0, 1.0]), &format!("def:Lab->Xyz:{}", tag), || format!("{} {:?} -> {:?}, CIE 15 gives {:?}", $wpn, a, d, want));
+                    let back: [T; 3] = palette::cast::into_array(Lab::<$wp, T>::from_color_unclamped(palette::cast::from_array::<Xyz<$wp, T>>(*d)));
+                    // back through the cube root: relative error of X/Xn is divided by 3 in f, but near f = 0 ... the linear toe keeps it Lipschitz (841/108)
+                    let ok = close3(&to64(&back), &a64, 16.0 * tol, &[116.0, 500.0, 200.0]);
+                    out.check(ok, &format!("rt:Lab->Xyz->Lab:{}", tag), || format!("{} {:?} -> {:?} -> {:?}", $wpn, a, d, back));
+                }
+            }} }
+
+            // ---------------- cartesian <-> polar (Lab<->Lch, Luv<->Lchuv)
+            macro_rules! polar { ($wp:ty, $wpn:expr, $Cart:ident, $Pol:ident, $cn:expr, $pn:expr) => {{
+                let (sn, dn) = (format!("{}:{}", $cn, $wpn), format!("{}:{}", $pn, $wpn));
+                let mut cs = box_inputs(nominal_box($cn), rng, n, false);
+                for r_ in [1.0, 50.0, 1e-9 * 255.0] { cs.extend(polar_edge_cartesians(50.0, r_)); }
+                out.count_n("cls:hue-sector-edge", 3 * 36);
+                let r = edge::<$Cart<$wp, T>, $Pol<$wp, T>, T, 3, 3>(out, &sn, &dn, &cs);
+                finite_check::<T>(out, concat!(stringify!($Cart), "->", stringify!($Pol)), &r, |_| false);
+                for (a, d) in &r {
+                    let a64 = to64(a); let d64 = to64(d); let want = spec::to_polar(a64);
+                    let chroma = want[1];
+                    // hue: atan2 is well conditioned (|dh| <= |d(a,b)|/C), a few eps of a radian = 57 eps degrees, compared on the circle;
+                    // palette stores 360 where the definition says 0 (b = -0.0): identified modulo 360 as the property does for hues
+                    let ok = close(d64[0], want[0], tol, 1.0) && close(d64[1], want[1], tol, 1.0) && (chroma == 0.0 || hue_close(d64[2], want[2], 360.0 * tol));
+                    out.check(ok, &format!("def:{}->{}:{}", $cn, $pn, tag), || format!("{:?} -> {:?}, CIE 15 gives {:?}", a, d, want));
+                    out.check(d64[2] >= 0.0 && d64[2] <= 360.0, &format!("hue-range:{}->{}:{}", $cn, $pn, tag), || format!("{:?} -> {:?}", a, d));
+                    // round trip cartesian -> polar -> cartesian: always (absolute error ∝ chroma)
+                    let back: [T; 3] = palette::cast::into_array($Cart::<$wp, T>::from_color_unclamped(palette::cast::from_array::<$Pol<$wp, T>>(*d)));
+                    let ok = close3(&to64(&back), &a64, 8.0 * tol, &[1.0, chroma, chroma]);
+                    out.check(ok, &format!("rt:{}->{}->{}:{}", $cn, $pn, $cn, tag), || format!("{:?} -> {:?} -> {:?}", a, d, back));
+                }
+                let mut ps = box_inputs(nominal_box($pn), rng, n, false);
+                for h in hue_edges::<T>() { ps.push([50.0, 40.0, h]); ps.push([50.0, 0.0, h]); out.count("cls:hue-sector-edge"); }
+                ps.push([50.0, -1.0, 30.0]); ps.push([50.0, -0.0, 30.0]); // `chroma.max(0)`
+                let r = edge::<$Pol<$wp, T>, $Cart<$wp, T>, T, 3, 3>(out, &dn, &sn, &ps);
+                finite_check::<T>(out, concat!(stringify!($Pol), "->", stringify!($Cart)), &r, |_| false);
+                for (a, d) in &r {
+                    let a64 = to64(a); let d64 = to64(d);
+                    if a64[1] < 0.0 { out.count("cls:negative-chroma"); out.check(d64[1] == 0.0 && d64[2] == 0.0, &format!("negative-chroma:{}->{}:{}", $pn, $cn, tag), || format!("{:?} -> {:?}", a, d)); continue; }
+                    let want = spec::from_polar(a64);
+                    // C·cos h with h in degrees: |d| = C·|dh| with dh = |h|·eps radians (h ≤ 720°: 12.6 eps)
+                    out.check(close3(&d64, &want, tol, &[1.0, a64[1], a64[1]]), &format!("def:{}->{}:{}", $pn, $cn, tag), || format!("{:?} -> {:?}, CIE 15 gives {:?}", a, d, want));
+                    // round trip polar -> cartesian -> polar for chroma > 0, hue modulo 360
+                    if a64[1] > 0.0 {
+                        let back: [T; 3] = palette::cast::into_array($Pol::<$wp, T>::from_color_unclamped(palette::cast::from_array::<$Cart<$wp, T>>(*d)));
+                        let b64 = to64(&back);
+                        let ok = close(b64[0], a64[0], tol, 1.0) && close(b64[1], a64[1], 8.0 * tol, 1.0) && hue_close(b64[2], a64[2], 360.0 * 8.0 * tol);
+                        out.check(ok, &format!("rt:{}->{}->{}:{}", $pn, $cn, $pn, tag), || format!("{:?} -> {:?} -> {:?}", a, d, back));
+                    }
+                }
+            }} }
+
+            // ---------------- Xyz <-> Luv
+            macro_rules! xyz_luv { ($wp:ty, $wpn:expr) => {{
+                let w = spec::white($wpn);
+                let (un, vn) = spec::upvp(w);
+                let (sn, dn) = (format!("Xyz:{}", $wpn), format!("Luv:{}", $wpn));
+                let mut xs = box_inputs(nominal_box("Xyz"), rng, n, false);
+                let e = (6.0f64 / 29.0).powi(3);
+                for y in ulps_around::<T>(e * w[1]) { xs.push([0.3, y, 0.4]); xs.push([y * w[0], y, y * w[2]]); out.count("cls:luv-threshold"); }
+                for k in 0..=32 { let g = k as f64 / 32.0; xs.push([g * w[0], g * w[1], g * w[2]]); out.count("cls:gray"); }
+                xs.push([0.0, 0.0, 0.0]); xs.push([-0.0, 0.0, 0.0]); xs.push([0.3, 0.0, -0.1]); // zero denominator
+                let r = edge::<Xyz<$wp, T>, Luv<$wp, T>, T, 3, 3>(out, &sn, &dn, &xs);
+                finite_check::<T>(out, "Xyz->Luv", &r, |_| false);
+                for (a, d) in &r {
+                    let a64 = to64(a); let want = spec::xyz_to_luv(w, a64);
+                    // u* = 13 L (u' − u'n): absolute rounding ∝ 13·L·max(u', u'n) (u' ≤ 4, v' ≤ 0.6 on X,Y,Z ≥ 0)
+                    let (up, vp) = if a64[0] + 15.0 * a64[1] + 3.0 * a64[2] != 0.0 { spec::upvp(a64) } else { (0.0, 0.0) };
+                    let su = 13.0 * want[0].abs() * up.abs().max(un) ; let sv = 13.0 * want[0].abs() * vp.abs().max(vn);
+                    out.check(close3(&to64(d), &want, 4.0 * tol, &[116.0, su, sv]), &format!("def:Xyz->Luv:{}", tag), || format!("{} {:?} -> {:?}, CIE 15 gives {:?}", $wpn, a, d, want));
+                    // round trip on the theorem's domain: Y > 0, L ≥ 1e-5 (Y/Yn ≥ 1.2e-8).  u' is recovered as u/(13 L) + u'n: an absolute error
+                    // eps·max(u', u'n) in u' (resp. v'); X = 2.25 Y u'/v', Z = Y (3 − 0.75 u' − 5 v')/v' turn it into the relative factors below.
+                    if a64[1] / w[1] >= 1.2e-8 && a64[0] >= 0.0 && a64[2] >= 0.0 {
+                        let back: [T; 3] = palette::cast::into_array(Xyz::<$wp, T>::from_color_unclamped(palette::cast::from_array::<Luv<$wp, T>>(*d)));
+                        let cv = vp.max(vn) / vp; let cu = up.max(un);
+                        let sx = a64[1] * 2.25 * (cu + up * cv) / vp; let sz = a64[1] * (3.0 + 0.75 * cu + (3.0 + 0.75 * up) * cv) / vp;
+                        let ok = close3(&to64(&back), &a64, 8.0 * tol, &[sx.max(1.0), 1.0, sz.max(1.0)]);
+                        out.check(ok, &format!("rt:Xyz->Luv->Xyz:{}", tag), || format!("{} {:?} -> {:?} -> {:?}", $wpn, a, d, back));
+                    } else { out.count("cls:luv-rt-outside-domain"); }
+                }
+                let mut ls = box_inputs(nominal_box("Luv"), rng, n, false);
+                for l in ulps_around::<T>(1e-5) { ls.push([l, 0.0, 0.0]); ls.push([l, 1e-6, -1e-6]); out.count("cls:luv-threshold"); }
+                for l in ulps_around::<T>(8.0) { ls.push([l, 0.0, 0.0]); ls.push([l, 10.0, -5.0]); out.count("cls:luv-threshold"); }
+                for k in 0..=32 { ls.push([100.0 * k as f64 / 32.0, 0.0, 0.0]); out.count("cls:gray"); }
+                let r = edge::<Luv<$wp, T>, Xyz<$wp, T>, T, 3, 3>(out, &dn, &sn, &ls);
+                finite_check::<T>(out, "Luv->Xyz", &r, |_| false);
+                for (a, d) in &r {
+                    let a64 = to64(a); let d64 = to64(d);
+                    if a64[0] < <T as Fl>::of(1e-5).to64() { // the cutoff constant as T sees it
+                        // below palette's cutoff the result is black; CIE 15 gives Y = Yn·L·(3/29)^3 ≤ 1.2e-8: that is the stated deviation
+                        out.count("cls:luv-below-cutoff");
+                        let y_def = if a64[0] > 0.0 { w[1] * a64[0] * (3.0f64 / 29.0).powi(3) } else { 0.0 };
+                        out.check(d64 == [0.0, 0.0, 0.0] && (d64[1] - y_def).abs() <= 1.2e-8, &format!("def:Luv->Xyz-cutoff:{}", tag), || format!("{} {:?} -> {:?}", $wpn, a, d));
+                        continue;
+                    }
+                    let want = spec::luv_to_xyz(w, a64);
+                    let (ut, vt) = (a64[1] / (13.0 * a64[0]), a64[2] / (13.0 * a64[0]));
+                    let (up, vp) = (ut + un, vt + vn);
+                    // v' = v/(13 L) + v'n is a sum: absolute error eps·max(|v/(13L)|, v'n); dividing by v' amplifies by 1/|v'| (v' -> 0 is the
+                    // edge of the chromaticity diagram, X and Z -> infinity there)
+                    let cv = vt.abs().max(vn) / vp.abs(); let cu = ut.abs().max(un);
+                    let y = want[1];
+                    let sx = y * 2.25 * (cu + up.abs() * cv) / vp.abs(); let sz = y * (3.0 + 0.75 * cu + 5.0 * vt.abs().max(vn) + (3.0 + 0.75 * up.abs() + 5.0 * vp.abs()) * cv) / vp.abs();
+                    out.check(close3(&d64, &want, 4.0 * tol, &[sx.max(1.0), 1.0, sz.max(1.0)]), &format!("def:Luv->Xyz:{}", tag), || format!("{} {:?} -> {:?}, CIE 15 gives {:?}", $wpn, a, d, want));
+                    // round trip Luv -> Xyz -> Luv where the XYZ is a physically meaningful one (v' ≥ 0.01: inside the diagram, away from its edge)
+                    if vp >= 0.01 && up >= 0.0 && d64.iter().all(|x| x.is_finite()) {
+                        let back: [T; 3] = palette::cast::into_array(Luv::<$wp, T>::from_color_unclamped(palette::cast::from_array::<Xyz<$wp, T>>(*d)));
+                        let su = 13.0 * a64[0] * up.max(un); let sv = 13.0 * a64[0] * vp.max(vn);
+                        let ok = close3(&to64(&back), &a64, 16.0 * tol, &[116.0, su.max(1.0), sv.max(1.0)]);
+                        out.check(ok, &format!("rt:Luv->Xyz->Luv:{}", tag), || format!("{} {:?} -> {:?} -> {:?}", $wpn, a, d, back));
+                    } else { out.count("cls:luv-rt-outside-domain"); }
+                }
+            }} }
+
+            // ---------------- Lchuv <-> Hsluv
+            macro_rules! hsluv { ($wp:ty, $wpn:expr) => {{
+                let (sn, dn) = (format!("Lchuv:{}", $wpn), format!("Hsluv:{}", $wpn));
+                let lsub = (1560896.0f64 * 0.0088564516).cbrt() - 16.0; // sub1 = EPSILON
+                let mut cs = box_inputs(nominal_box("Lchuv"), rng, n, false);
+                for l in ulps_around::<T>(lsub) { cs.push([l, 20.0, 120.0]); out.count("cls:hsluv-threshold"); }
+                for l in [0.0, 1e-9, 1e-8, 2e-8, 99.9999999, 99.99999995, 100.0] { for h in [0.0, 12.2, 90.0, 180.0, 265.9, 360.0] { for c_ in [0.0, 1e-6, 10.0] { cs.push([l, c_, h]); } } }
+                for h in hue_edges::<T>() { cs.push([60.0, 30.0, h]); }
+                let r = edge::<Lchuv<$wp, T>, Hsluv<$wp, T>, T, 3, 3>(out, &sn, &dn, &cs);
+                finite_check::<T>(out, "Lchuv->Hsluv", &r, |a| a[0] > 99.9999999 || a[0] < 0.00000001);
+                for (a, d) in &r {
+                    let a64 = to64(a); let d64 = to64(d); let want = spec::lch_to_hsluv(a64);
+                    // the two guards of the reference (S = 0 at the poles): suspected defect D5
+                    if a64[0] > 99.9999999 { out.check(d64[1] == 0.0 || (d64[1].abs() <= 1e-6), &format!("hsluv-at-L100:Lchuv->Hsluv:{}", tag), || format!("{:?} -> {:?}, HSLuv reference gives {:?}", a, d, want)); continue; }
+                    if a64[0] < 0.00000001 { out.check(d64[1] == 0.0 || (d64[1].abs() <= 1e-6), &format!("hsluv-at-L0:Lchuv->Hsluv:{}", tag), || format!("{:?} -> {:?}, HSLuv reference gives {:?}", a, d, want)); continue; }
+                    // S = 100 C / maxChroma.  maxChroma is computed in f64 on both sides; the only T-rounding is the hue in radians (|dθ| ≤ 2·eps·|θ|)
+                    // and the final quotient.  d(maxChroma)/maxChroma ≤ |dθ|·(|cos θ| + |slope sin θ|)/|denom| — bounded by ~8 |dθ| on the polygon.
+                    let ok = d64[0] == a64[2] && d64[2] == a64[0] && close(d64[1], want[1], 4.0 * tol * (1.0 + a64[2].abs() / 45.0), 100.0);
+                    out.maxi(&format!("hsluv-S-dev:{}", tag), (d64[1] - want[1]).abs() / want[1].abs().max(100.0));
+                    out.check(ok, &format!("def:Lchuv->Hsluv:{}", tag), || format!("{:?} -> {:?}, HSLuv reference gives {:?}", a, d, want));
+                    // round trip on the theorem's domain (0 < maxChroma)
+                    let mc = spec::max_chroma_for_lh(a64[0], a64[2]);
+                    if mc > 0.0 && mc < 1e300 && d64[1].is_finite() {
+                        let back: [T; 3] = palette::cast::into_array(Lchuv::<$wp, T>::from_color_unclamped(palette::cast::from_array::<Hsluv<$wp, T>>(*d)));
+                        let ok = back[0].to64() == a64[0] && back[2].to64() == a64[2] && close(back[1].to64(), a64[1], tol, 1.0);
+                        out.check(ok, &format!("rt:Lchuv->Hsluv->Lchuv:{}", tag), || format!("{:?} -> {:?} -> {:?}", a, d, back));
+                    }
+                }
+                let mut hs = box_inputs(nominal_box("Hsluv"), rng, n, false);
+                for l in ulps_around::<T>(lsub) { hs.push([120.0, 50.0, l]); out.count("cls:hsluv-threshold"); }
+                for l in [0.0, 1e-9, 1e-8, 2e-8, 99.9999999, 99.99999995, 100.0] { for h in [0.0, 12.2, 90.0, 180.0, 265.9, 360.0] { for s_ in [0.0, 50.0, 100.0] { hs.push([h, s_, l]); } } }
+                for h in hue_edges::<T>() { hs.push([h, 70.0, 60.0]); }
+                let r = edge::<Hsluv<$wp, T>, Lchuv<$wp, T>, T, 3, 3>(out, &dn, &sn, &hs);
+                finite_check::<T>(out, "Hsluv->Lchuv", &r, |a| a[2] > 99.9999999 || a[2] < 0.00000001);
+                for (a, d) in &r {
+                    let a64 = to64(a); let d64 = to64(d); let want = spec::hsluv_to_lch(a64);
+                    if a64[2] > 99.9999999 { out.check(d64[1].abs() <= 1e-4, &format!("hsluv-at-L100:Hsluv->Lchuv:{}", tag), || format!("{:?} -> {:?}, HSLuv reference gives {:?}", a, d, want)); continue; }
+                    if a64[2] < 0.00000001 { out.check(d64[1].abs() <= 1e-4, &format!("hsluv-at-L0:Hsluv->Lchuv:{}", tag), || format!("{:?} -> {:?}, HSLuv reference gives {:?}", a, d, want)); continue; }
+                    let ok = d64[2] == a64[0] && d64[0] == a64[2] && close(d64[1], want[1], 4.0 * tol * (1.0 + a64[0].abs() / 45.0), 1.0);
+                    out.check(ok, &format!("def:Hsluv->Lchuv:{}", tag), || format!("{:?} -> {:?}, HSLuv reference gives {:?}", a, d, want));
+                    if want[1] > 0.0 && d64[1].is_finite() && d64[1] > 0.0 {
+                        let back: [T; 3] = palette::cast::into_array(Hsluv::<$wp, T>::from_color_unclamped(palette::cast::from_array::<Lchuv<$wp, T>>(*d)));
+                        let ok = back[0].to64() == a64[0] && back[2].to64() == a64[2] && close(back[1].to64(), a64[1], tol, 1.0);
+                        out.check(ok, &format!("rt:Hsluv->Lchuv->Hsluv:{}", tag), || format!("{:?} -> {:?} -> {:?}", a, d, back));
+                    }
+                }
+            }} }
+
+            // ---------------- Xyz <-> Lms
+            macro_rules! lms { ($m:ty, $mn:expr) => {{
+                let (sn, dn) = ("Xyz:Any".to_string(), format!("Lms:{}", $mn));
+                let m = spec::cone($mn); let mi = spec::inv(m);
+                let xs = box_inputs(nominal_box("Xyz"), rng, n, false);
+                let r = edge::<Xyz<Any, T>, Lms<$m, T>, T, 3, 3>(out, &sn, &dn, &xs);
+                finite_check::<T>(out, "Xyz->Lms", &r, |_| false);
+                for (a, d) in &r {
+                    let a64 = to64(a); let want = spec::mul(m, a64);
+                    // row sums of |entries| ≤ 2.5: rounding of three products and two sums
+                    out.check(close3(&to64(d), &want, tol, &[2.5, 2.5, 2.5]), &format!("def:Xyz->Lms:{}", tag), || format!("{} {:?} -> {:?}, published matrix gives {:?}", $mn, a, d, want));
+                    // the inverse table is a 7-digit rounding of the exact inverse: round trip within 3e-7·‖x‖ (+ rounding in T)
+                    let back: [T; 3] = palette::cast::into_array(Xyz::<Any, T>::from_color_unclamped(palette::cast::from_array::<Lms<$m, T>>(*d)));
+                    let dev = (0..3).map(|i| (back[i].to64() - a64[i]).abs()).fold(0.0, f64::max);
+                    out.maxi(&format!("rt:Xyz-Lms-Xyz:{}:{}", $mn, tag), dev);
+                    out.check(dev <= 3e-7 * 3.0 + 8.0 * tol, &format!("rt:Xyz->Lms->Xyz:{}", tag), || format!("{} {:?} -> {:?} -> {:?}", $mn, a, d, back));
+                }
+                let ls = box_inputs(nominal_box("Lms"), rng, n, false);
+                let r = edge::<Lms<$m, T>, Xyz<Any, T>, T, 3, 3>(out, &dn, &sn, &ls);
+                finite_check::<T>(out, "Lms->Xyz", &r, |_| false);
+                for (a, d) in &r {
+                    let a64 = to64(a); let want = spec::mul(mi, a64);
+                    // 7-digit table vs exact inverse: 0.5e-7 per entry, three entries per row, inputs ≤ 1 -> 1.5e-7 (+ rounding in T, row sums ≤ 3.3)
+                    let dev = (0..3).map(|i| (d[i].to64() - want[i]).abs()).fold(0.0, f64::max);
+                    out.maxi(&format!("def-dev:Lms->Xyz:{}:{}", $mn, tag), dev);
+                    out.check(dev <= 3e-7 + 4.0 * tol, &format!("def:Lms->Xyz:{}", tag), || format!("{} {:?} -> {:?}, exact inverse of the published matrix gives {:?}", $mn, a, d, want));
+                    let back: [T; 3] = palette::cast::into_array(Lms::<$m, T>::from_color_unclamped(palette::cast::from_array::<Xyz<Any, T>>(*d)));
+                    let dev = (0..3).map(|i| (back[i].to64() - a64[i]).abs()).fold(0.0, f64::max);
+                    out.check(dev <= 3e-7 * 3.0 + 8.0 * tol, &format!("rt:Lms->Xyz->Lms:{}", tag), || format!("{} {:?} -> {:?} -> {:?}", $mn, a, d, back));
+                }
+            }} }
+
+            xyz_yxy!(D65, "D65"); xyz_yxy!(D50, "D50");
+            xyz_lab!(D65, "D65"); xyz_lab!(D50, "D50"); xyz_lab!(E, "E"); xyz_lab!(A, "A");
+            polar!(D65, "D65", Lab, Lch, "Lab", "Lch"); polar!(D50, "D50", Lab, Lch, "Lab", "Lch");
+            xyz_luv!(D65, "D65"); xyz_luv!(D50, "D50"); xyz_luv!(E, "E"); xyz_luv!(A, "A");
+            polar!(D65, "D65", Luv, Lchuv, "Luv", "Lchuv"); polar!(D50, "D50", Luv, Lchuv, "Luv", "Lchuv");
+            hsluv!(D65, "D65"); hsluv!(D50, "D50");
+            lms!(Bradford, "Bradford"); lms!(VonKries, "VonKries"); lms!(UnitMatrix, "UnitMatrix");
+        }
+    };
+}
+use palette::convert::FromColorUnclamped;
+fam!(run_f32, f32);
+fam!(run_f64, f64);
 
 pub fn run_family(out: &mut Out, rng: &mut Rng, tier: &str) {
     let n = if tier == "thorough" { 20_000 } else { 1_500 };
-    run_t::<f32>(out, rng, n);
-    run_t::<f64>(out, rng, n);
+    run_f32(out, rng, n);
+    run_f64(out, rng, n);
 }
